@@ -487,8 +487,13 @@ def check_case(case):
                 continue
             # (along an argument with a single value the coordinate need
             # not have been given that dimension)
-            got_c = ds[nc].sel({k_: v_ for k_, v_ in s_.items()
-                                if k_ in ds[nc].dims}).values
+            try:
+                got_c = ds[nc].sel({k_: v_ for k_, v_ in s_.items()
+                                    if k_ in ds[nc].dims}).values
+            except (KeyError, ValueError, TypeError):
+                vio.append((key("label-missing"), "coordinate %r has no entry "
+                            "labelled %r" % (nc, s_)))
+                break
             want_c = value(s_)[nc].values
             if not np.array_equal(got_c, want_c):
                 vio.append((key("result-coord"), "coordinate %r at %r: the "
